@@ -230,7 +230,7 @@ VIEW_OPS.discard(None)
 
 # pure data movement producing fresh storage: real kernel on the id tensor
 MOVE_OPS = {
-    aten.clone.default, aten.cat.default, aten.stack.default, aten.flip.default, aten.repeat.default, aten.index_select.default,
+    aten.clone.default, aten.cat.default, aten.stack.default, aten.flip.default, aten.repeat.default,
     aten.roll.default, aten.tril.default, aten.triu.default, aten.repeat_interleave.self_int if hasattr(aten.repeat_interleave, "self_int") else None,
     aten.contiguous.default if hasattr(aten, "contiguous") else None, aten.reshape.default, aten.lift_fresh_copy.default,
     aten.expand_copy.default if hasattr(aten, "expand_copy") else None, aten.tile.default if hasattr(aten, "tile") else None,
@@ -1106,6 +1106,16 @@ def h_gather(func, a, dim, index, sparse_grad=False):
     return _gather_conc(a, dim % a.dim(), concretize_index(index) if isinstance(index, SymTensor) else index)
 
 
+@handler(aten.index_select.default)
+def h_index_select(func, a, dim, index):
+    index = concretize_index(index) if isinstance(index, SymTensor) else index
+    pos = aten.index_select.default(a.idx, dim, index)
+    b = a.box
+    if b.conc is not None:
+        return wrap(b.conc[pos.reshape(-1)].reshape(pos.shape))
+    return from_ids(b.ids[pos.reshape(-1)].reshape(pos.shape), a.dtype)
+
+
 @handler(aten.mm.default, aten.bmm.default, aten.matmul.default if hasattr(aten, "matmul") else aten.mm.default)
 def h_mm(func, a, b):
     if not (a.dtype.is_floating_point and b.dtype.is_floating_point):
@@ -1238,12 +1248,21 @@ def _sym_cpu(self, *a, **k):
     return _orig["cpu"](self, *a, **k)
 
 
+def _sym_setitem(self, key, val):
+    if isinstance(val, (XF, SI, SB)):
+        dt = self.dtype
+        val = tensor_of([val_of(val, dt)], (), dt)
+    return _orig["__setitem__"](self, key, val)
+
+
 def install_patches():
     """Process-wide: SymTensors have no storage, so every C accessor must go through the bridge."""
     global _PATCHED
     if _PATCHED:
         return
     T = torch.Tensor
+    _orig["__setitem__"] = T.__setitem__
+    T.__setitem__ = _sym_setitem
     for name, fn in (("numpy", _sym_numpy), ("tolist", _sym_tolist), ("item", _sym_item), ("__bool__", _sym_bool), ("__int__", _sym_int),
                      ("__index__", _sym_int), ("__float__", _sym_float), ("__array__", _sym_array), ("cpu", _sym_cpu)):
         _orig[name] = getattr(T, name)
